@@ -90,7 +90,7 @@ def gen_storage(vc, name, with_inv=True):
 def other_state(vc, st):
     """everything a session storage holds besides its two tables (its lock, ...): the tables
     are the whole abstract state, so no operation may change anything else"""
-    return [(k, v) for k, v in vc.fields(st).items() if k not in ("incoming", "outgoing")]
+    return [(k, v) for k, v in vc.fields(st).items() if k not in ("incoming", "outgoing") and vc.attr_is_read(k)]
 
 
 def ob_check_received_refines(vc):
